@@ -26,7 +26,8 @@ def known_names():
         if p.endswith("inline.py"):
             continue
         with open(p) as fh:
-            src += fh.read() + "\n"
+            # identifiers in comments are prose, not anchors
+            src += "\n".join(re.sub(r"(^|\s)#[^\"']*$", "", ln) for ln in fh.read().splitlines()) + "\n"
     return set(re.findall(r"[A-Za-z_][A-Za-z0-9_]*", src)) | KEEP
 
 
